@@ -124,10 +124,16 @@ fn one<const D: usize>(c: &Value) -> Value {
         .collect();
     let after = serde_json::to_string(&s).unwrap();
     // serde round trips through two self-describing formats
-    let from_json: SampleGenerator<D> = serde_json::from_str(&before).unwrap();
+    let from_json: SampleGenerator<D> = match serde_json::from_str(&before) {
+        Ok(x) => x,
+        Err(e) => return json!({ "restore_err": format!("serde_json: {e}"), "json_text": before, "results": results, "fresh": fresh, "sampler_unchanged": before == after }),
+    };
     let mut cb = Vec::new();
     ciborium::ser::into_writer(&s, &mut cb).unwrap();
-    let from_cbor: SampleGenerator<D> = ciborium::de::from_reader(cb.as_slice()).unwrap();
+    let from_cbor: SampleGenerator<D> = match ciborium::de::from_reader(cb.as_slice()) {
+        Ok(x) => x,
+        Err(e) => return json!({ "restore_err": format!("ciborium: {e}"), "json_text": before, "results": results, "fresh": fresh, "sampler_unchanged": before == after }),
+    };
     let mut cb2 = Vec::new();
     ciborium::ser::into_writer(&from_cbor, &mut cb2).unwrap();
     let restored_json: Vec<Value> = c["ops"].as_array().unwrap().iter().map(|op| {
